@@ -36,14 +36,27 @@ def parseFEv (ev : List SExp) : Option Finalize.Ev :=
 def runFinalizeCase (cid : String) (field : String → List SExp) (events : List (List SExp)) :
     List String :=
   let chain := (field "chain").map parseElem
-  let rec go (w : Finalize.World) (k : Nat) : List (List SExp) → List String
+  -- field `dead`: the source subject was unsubscribed before the pipeline subscribed
+  let w0 : Finalize.World :=
+    if (field "dead").isEmpty then Finalize.World.init chain
+    else { Finalize.World.init chain with srcDone := true, slot := false }
+  -- field `clones n`: n independent subscriptions of clones of the one pipeline value
+  let n := match field "clones" with | e :: _ => e.nat | [] => 1
+  let rec stepAll (ws : List Finalize.World) (x : Finalize.Ev) : List Finalize.World × List FOut :=
+    match ws with
+    | [] => ([], [])
+    | w :: r =>
+      let (w', o) := w.step x
+      let (r', o') := stepAll r x
+      (w' :: r', o ++ o')
+  let rec go (ws : List Finalize.World) (k : Nat) : List (List SExp) → List String
     | [] => []
     | ev :: r =>
       match parseFEv ev with
       | some x =>
-        let (w', o) := w.step x
-        s!"{cid}.{k} o={String.intercalate ";" (o.map showFOut)}" :: go w' (k + 1) r
+        let (ws', o) := stepAll ws x
+        s!"{cid}.{k} o={String.intercalate ";" (o.map showFOut)}" :: go ws' (k + 1) r
       | none => [s!"{cid}.{k} BADEV"]
-  go (Finalize.World.init chain) 0 events
+  go (List.replicate n w0) 0 events
 
 end Rx.Driver
